@@ -175,6 +175,58 @@ func queueScenarios() []*sched.Scenario {
 			vrt.Fail("maxsize", "a second element (%d) was delivered from a queue bounded to 1", v)
 		}
 	})
+	// the handle of an element that the size bound dropped is dead: cancelling it (once or twice) must not touch the
+	// elements that are still queued.  Which element the bound drops is not part of the statement (the code drops the
+	// last heap slot, not always the furthest in the future), so the kept set is taken from a twin queue that gets the
+	// same Adds and is simply drained.  The explorer picks the order of the three times and the handle to cancel.
+	add("queue/maxsize2-dropped-handle", 1, false, func() {
+		perms := [][3]int{{2, 4, 6}, {2, 6, 4}, {4, 2, 6}, {4, 6, 2}, {6, 2, 4}, {6, 4, 2}}
+		times := perms[vrt.Choose(len(perms), 0)]
+		b := newBook()
+		build := func() (*timed.Queue[int], [3]*timed.QueueElement[int]) {
+			q := timed.NewQueue[int](timed.WithMaxSize[int](2))
+			var hs [3]*timed.QueueElement[int]
+			for i, t := range times {
+				b.due[i+1] = t
+				hs[i] = q.Add(i+1, at(t))
+			}
+			if q.Size() != 2 {
+				vrt.Fail("maxsize", "queue bounded to 2 elements holds %d", q.Size())
+			}
+			return q, hs
+		}
+		q, hs := build()
+		c := vrt.Choose(4, 0) // 0: cancel nothing, i: cancel handle i (twice)
+		if c > 0 {
+			hs[c-1].Cancel()
+			hs[c-1].Cancel()
+		}
+		twin, _ := build()
+		want := map[int]bool{}
+		for i := 0; i < 2; i++ {
+			want[twin.Poll(true)] = true
+		}
+		delete(want, c)
+		vrt.Observe("setup", fmt.Sprint(times), c, fmt.Sprint(want))
+		for range want {
+			if v := q.Poll(true); v != 0 {
+				b.delivered(v)
+			}
+		}
+		for it := range want {
+			if b.runs[it] != 1 {
+				vrt.Fail("not-delivered", "item %d (times %v; kept by the size bound and not cancelled; handle %d was cancelled) was delivered %d times", it, times, c, b.runs[it])
+			}
+		}
+		for it, n := range b.runs {
+			if !want[it] && n > 0 {
+				vrt.Fail("cancelled-but-delivered", "item %d was delivered although it was dropped by the size bound or cancelled (times %v, cancelled handle %d)", it, times, c)
+			}
+		}
+		if v := q.Poll(false); v != 0 {
+			vrt.Fail("delivered-twice", "Poll(false) returned %d after every remaining element had been delivered", v)
+		}
+	})
 	return out
 }
 
